@@ -87,6 +87,121 @@ HLconvert(int32 aid, int32 block_length, int32 number_blocks)
     return SUCCEED;
 }
 
+
+/* ---- ownership registry of access records / file ids (C13) ---- */
+void *g_reg_ptr;     /* last object handed to HAregister_atom(AIDGROUP) */
+int   g_registered;  /* ... and still registered */
+int   g_reg_n, g_rem_n;
+int   g_reg_may_fail;
+atom_t
+HAregister_atom(group_t grp, void *object)
+{
+    if (g_reg_may_fail) {
+        H4V_ND(int, reg_fault);
+        if (reg_fault)
+            return FAIL;
+    }
+    g_reg_n++;
+    g_reg_ptr    = object;
+    g_registered = 1;
+    return g_aid;
+}
+void *
+HAremove_atom(atom_t atm)
+{
+    if (atm == g_aid && g_arec != NULL && g_registered && g_reg_ptr == (void *)g_arec) {
+        g_registered = 0;
+        g_rem_n++;
+        return g_arec;
+    }
+    if (atm == g_fid && g_frec != NULL) {
+        g_rem_n++;
+        return g_frec;
+    }
+    return NULL;
+}
+/* ---- DD layer used by Hstartaccess/Hendaccess/Hclose: trusted stubs ---- */
+int g_htpcreate_n, g_htpend_n, g_htpsync_n;
+intn
+Hfind(int32 file_id, uint16 search_tag, uint16 search_ref, uint16 *find_tag, uint16 *find_ref, int32 *find_offset,
+      int32 *find_length, intn direction)
+{
+    H4V_ND(int, hfind_ok);
+    if (!hfind_ok)
+        return FAIL;
+    *find_tag    = search_tag;
+    *find_ref    = search_ref;
+    *find_offset = g_dd_off;
+    *find_length = g_dd_len;
+    return SUCCEED;
+}
+atom_t
+HTPselect(filerec_t *file_rec, uint16 tag, uint16 ref)
+{
+    H4V_ND(int, select_ok);
+    H4V_ND(int32, select_ddid);
+    if (!select_ok)
+        return FAIL;
+    H4V_ASSUME(select_ddid != FAIL);
+    return select_ddid;
+}
+atom_t
+HTPcreate(filerec_t *file_rec, uint16 tag, uint16 ref)
+{
+    H4V_CHECK((file_rec->access & DFACC_WRITE) != 0, "C14: DD created in a file opened read-only");
+    g_htpcreate_n++;
+    H4V_ND(int, create_ok);
+    H4V_ND(int32, create_ddid);
+    if (!create_ok)
+        return FAIL;
+    H4V_ASSUME(create_ddid != FAIL);
+    return create_ddid;
+}
+intn
+HTPis_special(atom_t ddid)
+{
+    return FALSE; /* assumption: ordinary element (special start functions are in hblocks.c etc.) */
+}
+intn
+HTPendaccess(atom_t ddid)
+{
+    g_htpend_n++;
+    if (g_htp_may_fail) {
+        H4V_ND(int, htp_fault);
+        if (htp_fault) {
+            g_htp_failed = 1;
+            return FAIL;
+        }
+    }
+    return SUCCEED;
+}
+intn
+HTPsync(filerec_t *file_rec)
+{
+    g_htpsync_n++;
+    if (g_htp_may_fail) {
+        H4V_ND(int, htp_fault);
+        if (htp_fault) {
+            g_htp_failed = 1;
+            return FAIL;
+        }
+    }
+    return SUCCEED;
+}
+intn
+HTPend(filerec_t *file_rec)
+{
+    g_htpend_n++;
+    if (g_htp_may_fail) {
+        H4V_ND(int, htp_fault);
+        if (htp_fault) {
+            g_htp_failed = 1;
+            return FAIL;
+        }
+    }
+    return SUCCEED;
+}
+
 /* ------------------------------------------------------------------ representation predicates */
 #define FREC_WF(f)                                                                                           \
     ((f)->refcount >= 1 && (f)->f_end_off >= 0 && (f)->f_end_off < INT32_MAX && (f)->f_cur_off >= 0 && ((f)->cache == 0 || (f)->cache == 1) && \
@@ -312,6 +427,80 @@ int HIextend_file(filerec_t *file_rec)
     __CPROVER_ensures((g_io_failed && !__CPROVER_old(g_io_failed)) ==> __CPROVER_return_value == FAIL)
     __CPROVER_ensures(__CPROVER_return_value == SUCCEED ==>
                       (g_wr_n == __CPROVER_old(g_wr_n) + 1 && g_wr_len == 1 && (g_io_failed || g_wr_off == file_rec->f_end_off)));
+
+/* C13: a record goes to the free list only if it is not (still) registered and not already there */
+void HIrelease_accrec_node(accrec_t *acc)
+    __CPROVER_requires(acc != NULL)
+    __CPROVER_requires(acc != accrec_free_list)                     /* no double release */
+    __CPROVER_requires(!(g_registered && (void *)acc == g_reg_ptr)) /* no release of a live handle's record */
+    __CPROVER_assigns(acc->next, accrec_free_list)
+    __CPROVER_ensures(accrec_free_list == acc && acc->next == __CPROVER_old(accrec_free_list));
+
+/* C16: the stream is never left open-looking after fclose ran, and a failed close is reported */
+int hi_close_stdio(FILE **f)
+    __CPROVER_requires(f != NULL && *f != NULL && g_close_n == 0)
+    __CPROVER_assigns(*f, g_close_n, g_closed_twice, g_stream, g_io_failed, g_pos_valid)
+    __CPROVER_ensures(*f == NULL)
+    __CPROVER_ensures(__CPROVER_return_value == ((g_io_failed && !__CPROVER_old(g_io_failed)) ? FAIL : SUCCEED));
+
+/* C13/C14: Hstartaccess on an ordinary element */
+int32 Hstartaccess(int32 file_id, uint16 tag, uint16 ref, uint32 flags)
+    __CPROVER_requires(g_frec != NULL && FREC_WF(g_frec) && g_file_writable == WRITABLE(g_frec) && g_frec->version_set)
+    __CPROVER_requires(g_aid != g_fid && g_aid != FAIL && !g_registered && g_reg_n == 0 && g_htpcreate_n == 0)
+    __CPROVER_requires(accrec_free_list == NULL || accrec_free_list == g_arec)
+    __CPROVER_requires(g_frec->attach >= 0 && g_frec->attach < INT_MAX)
+    __CPROVER_assigns(g_frec->attach, g_frec->maxref, accrec_free_list, g_reg_n, g_reg_ptr, g_registered, g_htpcreate_n;
+                      g_arec != NULL: __CPROVER_object_whole(g_arec))
+    __CPROVER_ensures((file_id != g_fid || ((flags & DFACC_WRITE) && !WRITABLE(g_frec))) ==>
+                      (__CPROVER_return_value == FAIL && g_htpcreate_n == 0 && g_reg_n == 0))
+    __CPROVER_ensures(__CPROVER_return_value == FAIL ==> (g_frec->attach == __CPROVER_old(g_frec->attach) && !g_registered))
+    __CPROVER_ensures(__CPROVER_return_value != FAIL ==>
+                      (__CPROVER_return_value == g_aid && g_registered && g_frec->attach == __CPROVER_old(g_frec->attach) + 1 &&
+                       ((accrec_t *)g_reg_ptr)->access == flags && ((accrec_t *)g_reg_ptr)->posn == 0 &&
+                       ((accrec_t *)g_reg_ptr)->file_id == file_id && ((accrec_t *)g_reg_ptr)->special == 0 &&
+                       /* the C14 invariant every later write relies on */
+                       (!(flags & DFACC_WRITE) || WRITABLE(g_frec)) &&
+                       /* a live record is not on the free list */
+                       accrec_free_list != (accrec_t *)g_reg_ptr))
+    /* read access never creates a DD */
+    __CPROVER_ensures(!(flags & DFACC_WRITE) ==> g_htpcreate_n == 0);
+
+/* C13: Hendaccess on an ordinary element */
+int Hendaccess(int32 access_id)
+    __CPROVER_requires(ENV_WF && access_id != g_fid && g_arec->special == 0)
+    __CPROVER_requires(g_registered && g_reg_ptr == (void *)g_arec && g_rem_n == 0 && accrec_free_list != g_arec)
+    __CPROVER_requires(g_frec->attach >= 1 && g_htpend_n == 0)
+    __CPROVER_assigns(g_frec->attach, accrec_free_list, g_arec->next, g_registered, g_rem_n, g_htpend_n, g_htp_failed)
+    __CPROVER_ensures(access_id != g_aid ==> (__CPROVER_return_value == FAIL && g_registered && g_frec->attach == __CPROVER_old(g_frec->attach) &&
+                                              accrec_free_list == __CPROVER_old(accrec_free_list)))
+    /* a valid id is always invalidated and its record released exactly once, even when the DD layer fails */
+    __CPROVER_ensures(access_id == g_aid ==> (!g_registered && g_rem_n == 1 && accrec_free_list == g_arec &&
+                                              g_arec->next == __CPROVER_old(accrec_free_list)))
+    __CPROVER_ensures((access_id == g_aid && __CPROVER_return_value == SUCCEED) ==> g_frec->attach == __CPROVER_old(g_frec->attach) - 1)
+    __CPROVER_ensures(g_htp_failed ==> __CPROVER_return_value == FAIL);
+
+/* C13/C16: Hclose */
+int Hclose(int32 file_id)
+    __CPROVER_requires(g_frec != NULL && FREC_WF(g_frec) && COH(g_frec) && g_file_writable == WRITABLE(g_frec) && WRITABLE(g_frec))
+    __CPROVER_requires(g_frec->version.modified == 0 && g_frec->path == NULL && g_frec->file == g_stream && g_stream != NULL)
+    __CPROVER_requires(g_close_n == 0 && g_rem_n == 0 && g_aid != g_fid && g_frec->attach >= 0 && (g_frec->dirty & ~3) == 0)
+    __CPROVER_requires(g_add_session == 0 && g_htpsync_n == 0 && g_htpend_n == 0)
+    __CPROVER_assigns(__CPROVER_object_whole(g_frec), g_fpos, g_pos_valid, g_io_failed, g_seek_n, g_last_stdio, g_wr_n, g_wr_off, g_wr_len,
+                      g_min_wr_off, g_off_written, g_off_byte, g_close_n, g_closed_twice, g_stream, g_rem_n, g_htpsync_n, g_htpend_n,
+                      g_htp_failed)
+    __CPROVER_frees(g_frec)
+    __CPROVER_ensures(file_id != g_fid ==> (__CPROVER_return_value == FAIL && g_close_n == 0 && g_rem_n == 0))
+    /* a file with attached access elements cannot be closed out from under them */
+    __CPROVER_ensures((file_id == g_fid && __CPROVER_old(g_frec->refcount) == 1 && __CPROVER_old(g_frec->attach) > 0) ==>
+                      (__CPROVER_return_value == FAIL && g_close_n == 0 && g_rem_n == 0 && g_wr_n == 0))
+    __CPROVER_ensures((file_id == g_fid && __CPROVER_old(g_frec->refcount) == 1 && __CPROVER_old(g_frec->attach) > 0) ==> g_frec->refcount == 1)
+    /* one of several opens: only the count drops */
+    __CPROVER_ensures((file_id == g_fid && __CPROVER_old(g_frec->refcount) > 1) ==>
+                      (__CPROVER_return_value == SUCCEED && g_close_n == 0 && g_rem_n == 1))
+    __CPROVER_ensures((file_id == g_fid && __CPROVER_old(g_frec->refcount) > 1) ==> g_frec->refcount == __CPROVER_old(g_frec->refcount) - 1)
+    /* C16: any failed flush or close makes Hclose fail */
+    __CPROVER_ensures((g_io_failed || g_htp_failed) ==> __CPROVER_return_value == FAIL)
+    __CPROVER_ensures(g_close_n <= 1);
 
 #ifdef H4V_NATIVE
 #include "h4v_native_wrap.h"
@@ -540,4 +729,96 @@ h_HIextend_file(void)
     H4V_COVER(r == SUCCEED, "HIextend_file ok");
     H4V_COVER(r == FAIL, "HIextend_file fault");
     H4V_CANARY("HIextend_file end");
+}
+
+void
+h_HIrelease_accrec_node(void)
+{
+    mk_env(0);
+    H4V_HAVOC(int, g_registered);
+    g_reg_ptr = NULL;
+    accrec_free_list = NULL;
+    HIrelease_accrec_node(g_arec);
+    H4V_CANARY("HIrelease_accrec_node end");
+}
+
+void
+h_hi_close_stdio(void)
+{
+    h4v_stdio_init(1);
+    g_stream = (FILE *)g_dummy_stream;
+    FILE *f  = g_stream;
+    int   r  = hi_close_stdio(&f);
+    H4V_COVER(r == FAIL, "hi_close_stdio fault");
+    H4V_COVER(r == SUCCEED, "hi_close_stdio ok");
+    H4V_CANARY("hi_close_stdio end");
+}
+
+void
+h_Hstartaccess(void)
+{
+    mk_env(0);
+    g_frec->version_set = 1;
+    g_registered = 0;
+    g_reg_n = g_htpcreate_n = 0;
+    g_reg_ptr = NULL;
+    g_reg_may_fail = 0; /* A-ALLOC: atom registration (malloc) does not fail; no property quantifies over allocation failure */
+    H4V_ND(int, free_list_has_one);
+    accrec_free_list = free_list_has_one ? g_arec : NULL;
+    if (!free_list_has_one) {
+        free(g_arec);
+        g_arec = NULL;
+    }
+    else
+        g_arec->next = NULL;
+    H4V_ND(int32, file_id);
+    H4V_ND(uint16, tag);
+    H4V_ND(uint16, ref);
+    H4V_ND(uint32, flags);
+    int32 r = Hstartaccess(file_id, tag, ref, flags);
+    H4V_COVER(r != FAIL && g_htpcreate_n == 1, "Hstartaccess created element");
+    H4V_COVER(r != FAIL && g_htpcreate_n == 0, "Hstartaccess existing element");
+    H4V_COVER(r == FAIL && g_reg_n == 0 && file_id == g_fid, "Hstartaccess refused");
+    H4V_COVER(r == FAIL && accrec_free_list != NULL, "Hstartaccess released record on failure");
+    H4V_CANARY("Hstartaccess end");
+}
+
+void
+h_Hendaccess(void)
+{
+    mk_env(0);
+    g_htp_may_fail = 1;
+    g_registered = 1;
+    g_reg_ptr    = g_arec;
+    g_rem_n      = 0;
+    H4V_ND(int, free_list_empty);
+    if (free_list_empty)
+        accrec_free_list = NULL;
+    else {
+        accrec_free_list = malloc(sizeof(accrec_t));
+        H4V_ASSUME(accrec_free_list != NULL);
+        accrec_free_list->next = NULL;
+    }
+    H4V_ND(int32, access_id);
+    int r = Hendaccess(access_id);
+    H4V_COVER(r == SUCCEED, "Hendaccess ok");
+    H4V_COVER(r == FAIL && access_id == g_aid, "Hendaccess DD layer failure");
+    H4V_CANARY("Hendaccess end");
+}
+
+void
+h_Hclose(void)
+{
+    mk_env(1);
+    g_htp_may_fail = 1;
+    g_rem_n = 0;
+    g_htpsync_n = g_htpend_n = 0;
+    H4V_ND(int, v_modified);
+    g_frec->version.modified = (int16)v_modified;
+    H4V_ND(int32, file_id);
+    int r = Hclose(file_id);
+    H4V_COVER(r == SUCCEED && g_close_n == 1, "Hclose closed the file");
+    H4V_COVER(r == FAIL && g_close_n == 0 && file_id == g_fid, "Hclose refused (attached)");
+    H4V_COVER(r == FAIL && g_io_failed, "Hclose reports I/O failure");
+    H4V_CANARY("Hclose end");
 }
